@@ -13,6 +13,7 @@ import (
 	"math/rand"
 	"os"
 	"path/filepath"
+	"reflect"
 	"sort"
 	"strings"
 	"time"
@@ -22,11 +23,11 @@ import (
 )
 
 type airStats struct {
-	Ops, Scenarios, Mutations, Fatal, ErrorResults, OkResults, Panics       int
-	Clones, CloneOps, Restarts, RestartPoints, SeedEntries, ReplayedResults int
-	MutationHist                                                            map[string]int
-	OutcomeHist                                                             map[string]int
-	Monitors, Notes, Samples                                                []string
+	Ops, Scenarios, Mutations, Fatal, ErrorResults, OkResults, Panics                         int
+	Clones, CloneOps, Restarts, RestartPoints, SeedEntries, ReplayedResults, SecondCeremonies int
+	MutationHist                                                                              map[string]int
+	OutcomeHist                                                                               map[string]int
+	Monitors, Notes, Samples                                                                  []string
 }
 
 type airRun struct {
@@ -35,6 +36,7 @@ type airRun struct {
 	obs  *bufio.Writer
 	rng  *rand.Rand
 	tier string
+	ctx  string
 }
 
 func (a *airRun) mon(s string) {
@@ -204,6 +206,29 @@ func jsonLeafMutations(doc interface{}, rng *rand.Rand) []struct {
 				add("array-duplicated", append(clone(t).([]interface{}), t[0]))
 				add("array-shortened", clone(t).([]interface{})[:len(t)-1])
 			}
+			// one element carries what belongs to another (a deal, a commit, an id delivered under another participant's
+			// name): every ordered pair among the first three elements, field by field
+			for i := 0; i < len(t) && i < 3; i++ {
+				for j := 0; j < len(t) && j < 3; j++ {
+					oi, ok1 := t[i].(map[string]interface{})
+					oj, ok2 := t[j].(map[string]interface{})
+					if i == j || !ok1 || !ok2 {
+						continue
+					}
+					keys := make([]string, 0, len(oi))
+					for k := range oi {
+						keys = append(keys, k)
+					}
+					sort.Strings(keys)
+					for _, k := range keys {
+						if v, ok := oj[k]; ok && !reflect.DeepEqual(v, oi[k]) {
+							c := clone(t).([]interface{})
+							c[i].(map[string]interface{})[k] = v
+							out = append(out, res{fmt.Sprintf("sibling-field@%s[%d<-%d].%s", path, i, j, k), rebuild(c)})
+						}
+					}
+				}
+			}
 			// only the first two elements are descended into: the others have the same shape
 			for i := 0; i < len(t) && i < 2; i++ {
 				i := i
@@ -282,6 +307,37 @@ func (a *airRun) operationMutations(op types.Operation, otherTypes []string) []a
 			add("type-confused:"+t, func(o *types.Operation) { o.Type = types.OperationType(t) })
 		}
 	}
+	// identifiers of every short length (file names and log lines are cut from them)
+	for k := 1; k <= 9; k++ {
+		k := k
+		add(fmt.Sprintf("id-len-%d", k), func(o *types.Operation) { o.ID = (o.ID + "abcdefghi")[:k] })
+		add(fmt.Sprintf("round-len-%d", k), func(o *types.Operation) { o.DKGIdentifier = (o.DKGIdentifier + "abcdefghi")[:k] })
+	}
+	{
+		var top map[string]interface{}
+		if json.Unmarshal(op.Payload, &top) == nil {
+			keys := make([]string, 0, len(top))
+			for key := range top {
+				keys = append(keys, key)
+			}
+			sort.Strings(keys)
+			for _, key := range keys {
+				v, ok := top[key].(string)
+				if !ok || !(strings.Contains(key, "ID") || strings.Contains(key, "Id")) {
+					continue
+				}
+				for k := 1; k <= 9; k++ {
+					c := map[string]interface{}{}
+					for kk, vv := range top {
+						c[kk] = vv
+					}
+					c[key] = (v + "abcdefghi")[:k]
+					bz, _ := json.Marshal(c)
+					add(fmt.Sprintf("payload:%s-len-%d", key, k), func(o *types.Operation) { o.Payload = bz })
+				}
+			}
+		}
+	}
 	add("payload-empty", func(o *types.Operation) { o.Payload = []byte{} })
 	add("payload-nil", func(o *types.Operation) { o.Payload = nil })
 	add("payload-null", func(o *types.Operation) { o.Payload = []byte("null") })
@@ -315,12 +371,20 @@ func (a *airRun) operationMutations(op types.Operation, otherTypes []string) []a
 	return out
 }
 
+// alwaysRun: mutations that are not sampled (few, and each with its own meaning)
+func alwaysRun(name string) bool {
+	return strings.Contains(name, "sibling-field") || strings.Contains(name, "-len-")
+}
+
 func mutClass(name string) string {
 	if i := strings.Index(name, "@"); i >= 0 {
 		name = name[:i]
 	}
 	if strings.HasPrefix(name, "signing-range") {
 		return "signing-range"
+	}
+	if i := strings.Index(name, "-len-"); i >= 0 {
+		return name[:i] + "-len"
 	}
 	return name
 }
@@ -406,8 +470,8 @@ func (a *airRun) faultScenario(outDir string, n, t int) {
 		muts := a.operationMutations(op, types6)
 		a.rng.Shuffle(len(muts), func(i, j int) { muts[i], muts[j] = muts[j], muts[i] })
 		for i, mu := range muts {
-			if i >= lim {
-				break
+			if i >= lim && !alwaysRun(mu.name) {
+				continue
 			}
 			before := cloneB.VerifDBSnapshot()
 			o := tryOperation(cloneB, mu.op, true)
@@ -522,6 +586,7 @@ func (a *airRun) faultScenario(outDir string, n, t int) {
 			a.restartScenario(dir, victim, mnemonic, round, ref, refKey, "after-step", 0, true)
 		}
 	}
+	a.secondCeremony(dir, c, victim, mnemonic, round, t)
 	if haveKey {
 		if got, _ := keyringOf(cloneA, round); got != want {
 			a.mon(fmt.Sprintf("C12 same_mnemonic_same_keys: a machine created from the same mnemonic and fed the same operations holds %s, the original %s", truncate(got, 90), truncate(want, 90)))
@@ -581,6 +646,68 @@ func resultDigest(o airOutcome) string {
 // maskTimes: CreatedAt inside request payloads comes from the operation and is equal; nothing else to mask
 func digestsEqual(a, b string) bool { return a == b }
 
+// secondCeremony (C12): the same participants hold a second ceremony, which the victim's machine handles in the process
+// that handled the first. A machine that is stopped inside the second ceremony, reopened and replayed carries on as the
+// one that never stopped; and a machine with the same mnemonic that only ever saw the second ceremony derives the same
+// commitments, answers and share for it (what a machine derives for a round depends on the mnemonic and the round, not on
+// what the process did before).
+func (a *airRun) secondCeremony(dir string, c *cluster, victim *vnode, mnemonic, roundA string, t int) {
+	roundB, err := c.startDKG(t)
+	if err != nil {
+		a.note("second ceremony: " + err.Error())
+		return
+	}
+	for _, e := range c.pump(40) {
+		a.note("second ceremony: " + e)
+	}
+	if st := c.roundState(victim, roundB); st != "stage_signing_idle" {
+		a.note("second ceremony ended in " + st)
+		return
+	}
+	a.st.SecondCeremonies++
+	ops := victim.coldLog
+	refM, err := newMachine(filepath.Join(dir, "ref2"), "pw", mnemonic)
+	if err != nil {
+		return
+	}
+	var ref []string
+	var bIdx []int
+	for i, op := range ops {
+		ref = append(ref, resultDigest(tryOperation(refM, op, true)))
+		if op.DKGIdentifier == roundB {
+			bIdx = append(bIdx, i)
+		}
+	}
+	refKey, _ := keyringOf(refM, roundB)
+	refM.VerifCloseDB()
+	if want, ok := keyringOf(victim.air, roundB); ok && want != refKey {
+		a.mon(fmt.Sprintf("C12 same_mnemonic_same_keys: second ceremony: a machine with the same mnemonic fed the same operations holds %s, the original %s", truncate(refKey, 90), truncate(want, 90)))
+	}
+	if only, err := newMachine(filepath.Join(dir, "onlyB"), "pw", mnemonic); err == nil {
+		for _, i := range bIdx {
+			if got := resultDigest(tryOperation(only, ops[i], true)); !digestsEqual(got, ref[i]) {
+				a.mon(fmt.Sprintf("C12 same_mnemonic_same_outcome: second ceremony: a machine with the same mnemonic that is fed this ceremony only answers operation %d (%s) with %s, the machine that handled an earlier ceremony first with %s", i, ops[i].Type, truncate(got, 160), truncate(ref[i], 160)))
+				break
+			}
+		}
+		if got, _ := keyringOf(only, roundB); got != refKey {
+			a.mon(fmt.Sprintf("C12 same_mnemonic_same_keys: second ceremony: a machine with the same mnemonic that is fed this ceremony only holds %s, the machine that handled an earlier ceremony first %s", truncate(got, 90), truncate(refKey, 90)))
+		}
+		only.VerifCloseDB()
+	}
+	a.ctx = " in a second ceremony of the process"
+	defer func() { a.ctx = "" }()
+	for _, kind := range []string{"after-step", "computed-not-logged", "logged-file-lost"} {
+		for _, at := range bIdx {
+			if a.tier != "thorough" && a.rng.Intn(3) != 0 {
+				continue
+			}
+			a.restartScenario(dir, victim, mnemonic, roundB, ref, refKey, kind, at, false)
+		}
+	}
+	a.restartScenario(dir, victim, mnemonic, roundB, ref, refKey, "after-step", 0, true)
+}
+
 // restartScenario (C12): a machine with the victim's mnemonic is fed the victim's operations and stopped / reopened /
 // replayed at the given point; every later result and the final keyring must be those of a machine that never stopped.
 func (a *airRun) restartScenario(dir string, victim *vnode, mnemonic, round string, ref []string, refKey string, kind string, at int, everyStep bool) {
@@ -588,6 +715,7 @@ func (a *airRun) restartScenario(dir string, victim *vnode, mnemonic, round stri
 	if everyStep {
 		tag = "restart after every step"
 	}
+	tag += a.ctx
 	mdir := filepath.Join(dir, fmt.Sprintf("rs-%s-%d-%v", kind, at, everyStep))
 	m, err := newMachine(mdir, "pw", mnemonic)
 	if err != nil {
@@ -645,6 +773,8 @@ func (a *airRun) restartScenario(dir string, victim *vnode, mnemonic, round stri
 	a.emit("reset", "ok")
 	for i, op := range ops {
 		if op.DKGIdentifier != round {
+			// an earlier ceremony handled by the same process: fed as it was, never restarted in
+			tryOperation(m, op, true)
 			continue
 		}
 		if !everyStep && i == at {
